@@ -27,7 +27,7 @@ static struct { const char *name; fn_hist fn; const char *isa; } collectors[] = 
 
 static gslot *s_ht, *s_hg, *s_ctx, *s_in, *s_out;
 static uint8_t *data, *tstream, *expect, *dec, *cout, *dec2;
-static long st_tables, st_deep, st_subset, st_roundtrips, st_symbols, st_set_refused, st_set_accepted, st_fallback, st_fam[16];
+static long st_tables, st_deep, st_subset, st_roundtrips, st_symbols, st_set_refused, st_set_accepted, st_fallback, st_fam[16], st_worst, st_worst_groups57, st_group_bits_max; static uint32_t rt_group_bits; static long rt_groups_over_56;
 
 typedef struct { uint8_t *b; size_t bits; } bw_t;
 static inline void wb(bw_t *w, uint64_t v, int n) { for (int i = 0; i < n; i++) { if ((v >> i) & 1) w->b[w->bits >> 3] |= (uint8_t) (1 << (w->bits & 7)); w->bits++; } }
@@ -58,6 +58,17 @@ static void gen_hist(vrng *r, struct isal_huff_histogram *hg, int fam, size_t *d
 	case 8: { uint64_t v = 1; for (int i = 0; i < 286; i++) { ll[i] = v; if (i % 9 == 8 && v < (1ull << 42)) v *= 3; } for (int i = 0; i < 30; i++) dd[i] = 1ull << (i % 40); } break;        /* geometric */
 	case 10: for (int i = 0; i < 286; i++) ll[i] = vrn(r, 3) == 0 ? (uint64_t) (1 + vrn(r, 16)) << 32 : vrn(r, 4) == 0 ? 0 : ((uint64_t) 1 << 31) + (vr64(r) >> 30); for (int i = 0; i < 30; i++) dd[i] = (uint64_t) (1 + vrn(r, 9)) << (28 + vrn(r, 8)); break;   /* counts that are multiples of 2^32, moderate skew */
 	case 9: for (int i = 0; i < 286; i++) ll[i] = vr64(r) >> (20 + vrn(r, 44)); for (int i = 0; i < 30; i++) dd[i] = vr64(r) >> (20 + vrn(r, 44)); break;
+	case 12: { /* deep chains: a Fibonacci chain of literals whose two rarest members are a literal and a length symbol (285 or another), every other length symbol moderately frequent,
+	            and a distance chain whose rarest members are far distance symbols: long literal code + long length code + long far-distance code at once */
+		uint64_t fib[48]; fib[0] = fib[1] = 1; for (int i = 2; i < 48; i++) fib[i] = fib[i - 1] + fib[i - 2];
+		int nchain = 6 + vrn(r, 12), dchain = 8 + vrn(r, 10); uint64_t W = 1 + (vr64(r) >> (44 + vrn(r, 19)));
+		int lsym = vrn(r, 3) ? 285 : 257 + (int) vrn(r, 29), lit0 = (int) vrn(r, 256);
+		for (int i = 257; i <= 285; i++) ll[i] = vrn(r, 8) ? W : 1 + vrn(r, 3) * W; ll[256] = W;
+		ll[lsym] = 1; ll[lit0] = 1; for (int i = 2; i < nchain; i++) ll[(lit0 + i * 37) % 256] = fib[i];
+		if (vrn(r, 3) == 0) for (int i = 0; i < 256; i++) if (!ll[i] && vrn(r, 4) == 0) ll[i] = 1 + vrn(r, 2) * W;
+		int far0 = vrn(r, 3) ? 29 : 17 + (int) vrn(r, 13); dd[far0] = 1; dd[far0 > 17 ? far0 - 1 : far0 + 1] = 1;
+		{ int k = 2; for (int i = 29; i >= 0 && k < dchain; i--) if (!dd[i]) dd[i] = fib[k++]; for (int i = 0; i < 30; i++) if (!dd[i]) dd[i] = fib[dchain < 47 ? dchain : 46]; }
+		} break;
 	default: { /* collected from data by one of the collector variants */
 		size_t n = vrn(r, 4) == 0 ? vrn(r, 300) : vrn(r, 60000); int kind = vrn(r, 4);
 		if (kind == 0) vr_fill(r, data, n); else if (kind == 1) memset(data, 'z', n); else { static const char *w[] = { "lorem ", "ipsum ", "dolor ", "sit ", "amet ", "\n", "0123", "e" }; size_t o = 0; while (o < n) { const char *s = w[vrn(r, 8)]; for (; *s && o < n; s++) data[o++] = (uint8_t) *s; if (kind == 3 && vrn(r, 5) == 0 && o < n) data[o++] = (uint8_t) vr32(r); } }
@@ -97,7 +108,7 @@ static int roundtrip(struct isal_hufftables *ht, const uint8_t *src, size_t n, v
 		if (e || ri.outlen != n || memcmp(dec, src, n) || rw.total_len != outl) { snprintf(key, sizeof key, "roundtrip-fails:%s:%s", what, e == RWE_BODY ? ri_errname(ri.err) : e ? "wrapper" : "bytes"); v_viol(key, "%s compress with the custom table: reference wrapper error %d deflate error %s, %zu of %zu bytes, stream %zu/%zu", streaming ? "streaming" : "one-shot", e, ri_errname(ri.err), ri.outlen, n, rw.total_len, outl); goto out; }
 		z_stream z; memset(&z, 0, sizeof z); if (inflateInit2(&z, wr == RW_RAW ? -15 : wr == RW_GZIP ? 31 : 15) != Z_OK) v_harness_fail("zlib"); z.next_in = out; z.avail_in = (uInt) outl; z.next_out = dec2; z.avail_out = (uInt) (n + 1024); int zr = inflate(&z, Z_FINISH); size_t zo = z.total_out; inflateEnd(&z);
 		if (zr != Z_STREAM_END || zo != n || memcmp(dec2, src, n)) { snprintf(key, sizeof key, "roundtrip-fails:%s:zlib", what); v_viol(key, "zlib rejects the stream compressed with the custom table (ret %d)", zr); goto out; }
-		st_roundtrips++;
+		st_roundtrips++; rt_group_bits = ri.max_group_bits; rt_groups_over_56 = ri.groups_over_56;
 	}
 	gs_reset(s_ctx); gs_reset(s_in); gs_reset(s_out); return 0;
 out:
@@ -110,7 +121,7 @@ static void install_rules(struct isal_hufftables *ht, vrng *r)
 	size_t n = 200 + vrn(r, 4000); for (size_t i = 0; i < n; i++) data[i] = (uint8_t) ("abcdefgh \n"[vrn(r, 10)]);
 	uint8_t *in = gs_place(s_in, n, G_END, 0); memcpy(in, data, n); uint8_t *out = gs_place(s_out, 70000, G_END, 0);
 	if (V_TRY(30)) {
-		isal_deflate_init(s); s->next_in = in; s->avail_in = (uint32_t) n; s->next_out = out; s->avail_out = vrn(r, 3) ? 1 + vrn(r, 200) : 8 + vrn(r, 16); s->flush = (uint16_t) vrn(r, 3); s->end_of_stream = 0;
+		isal_deflate_init(s); s->next_in = in; s->avail_in = (uint32_t) n; s->next_out = out; s->avail_out = vrn(r, 3) ? 1 + vrn(r, 200) : 8 + vrn(r, 16); s->flush = (uint16_t) vrn(r, 3); s->end_of_stream = vrn(r, 4) == 0; if (vrn(r, 5) == 0) { s->avail_in = (uint32_t) vrn(r, 40); s->avail_out = 1 + vrn(r, 12); }
 		int calls = 1 + vrn(r, 4); for (int c = 0; c < calls; c++) { isal_deflate(s); if (c + 1 < calls) s->avail_out += vrn(r, 40); }
 		int st = s->internal_state.state; struct isal_hufftables *before = s->hufftables;
 		int type = vrn(r, 6); int rc;
@@ -144,13 +155,38 @@ out:
 	gs_reset(s_ctx); gs_reset(s_in); gs_reset(s_out);
 }
 
+/* Data built for this table so that the encoder has to emit, back to back, the literal with the longest code, the length with the most
+ * code+extra bits and a distance with the most code+extra bits, at varying bit phases and loop slots: the largest group a kernel may
+ * hand to its bit buffer in one write.  lits[0..nl) are the byte values the table can encode. */
+static int worst_group(struct isal_hufftables *ht, vrng *r, const int *lits, int nl, const char *what)
+{
+	if (nl < 3) return 0;
+	uint64_t code, len; int X = lits[0], Z = lits[0]; uint64_t xb = 0, zb = 99;
+	for (int i = 0; i < nl; i++) { get_lit_code(ht, lits[i], &code, &len); if (len > xb || (len == xb && vrn(r, 3) == 0)) { xb = len; X = lits[i]; } }
+	for (int i = 0; i < nl; i++) { if (lits[i] == X) continue; get_lit_code(ht, lits[i], &code, &len); if (len < zb) { zb = len; Z = lits[i]; } }
+	int L = 258; { get_len_code(ht, 258, &code, &len); uint64_t best = len; if (vrn(r, 4)) for (int l = 3; l < 258; l++) { get_len_code(ht, l, &code, &len); if (len > best || (len == best && vrn(r, 9) == 0)) { best = len; L = l; } } }
+	uint32_t win = IGZIP_HIST_SIZE; int ds = -1; uint64_t db = 0;
+	for (int s = 17; s < 30; s++) { if ((uint32_t) RI_DB[s] + 128 + 300 > win || RI_DB[s] < (uint32_t) L + 32) continue; get_dist_code(ht, RI_DB[s], &code, &len); if (len > db || (len == db && vrn(r, 2))) { db = len; ds = s; } }
+	if (ds < 0) return 0;
+	int K = (int) ((RI_DB[ds] - 16) / (uint32_t) L); if (K > 10) K = 10; if (K < 1) return 0;
+	int others[256], no = 0; for (int i = 0; i < nl; i++) if (lits[i] != X && lits[i] != Z) others[no++] = lits[i];
+	size_t n = 0; int p0 = vrn(r, 9); for (int i = 0; i < p0; i++) data[n++] = (uint8_t) others[vrn(r, no)];
+	size_t b0 = n; for (int i = 0; i < K * L; i++) data[n++] = (uint8_t) others[vrn(r, no)];
+	size_t F = RI_DB[ds] - (size_t) K * L + vrn(r, 4); for (size_t i = 0; i < F; i++) data[n++] = (uint8_t) Z;
+	for (int k = 0; k < K; k++) { int pad = vrn(r, 3); for (int q = 0; q < pad; q++) data[n++] = (uint8_t) others[vrn(r, no)]; data[n++] = (uint8_t) X; memcpy(data + n, data + b0 + (size_t) k * L, L); n += L; data[n++] = (uint8_t) Z; data[n++] = (uint8_t) Z; }
+	rt_group_bits = 0; rt_groups_over_56 = 0;
+	int bad = roundtrip(ht, data, n, r, what);
+	st_worst++; if (rt_groups_over_56) st_worst_groups57++; if ((long) rt_group_bits > st_group_bits_max) st_group_bits_max = rt_group_bits;
+	return bad;
+}
+
 static void table_case(long idx, vrng *r)
 {
 	struct isal_hufftables *ht = (struct isal_hufftables *) gs_place(s_ht, (sizeof *ht + 15) & ~15ul, vrn(r, 2) ? G_END : G_START, 0);
 	struct isal_huff_histogram *hg = (struct isal_huff_histogram *) gs_place(s_hg, (sizeof *hg + 15) & ~15ul, vrn(r, 2) ? G_END : G_START, 0);
-	int fam = vrn(r, 15), subset = vrn(r, 3) == 0; size_t datalen; char key[200];
+	int fam = vrn(r, 16), subset = vrn(r, 3) == 0; size_t datalen; char key[200];
 	vr_fill(r, ht, sizeof *ht);
-	gen_hist(r, hg, fam, &datalen); st_fam[fam <= 10 ? fam : 11]++;
+	gen_hist(r, hg, fam, &datalen); st_fam[fam <= 10 ? fam : fam == 12 ? 12 : 11]++;
 	if (subset && fam >= 11 && vrn(r, 2)) hg->lit_len_histogram[256] = 0;          /* a hand-edited / merged histogram without an end-of-block count */
 	static struct isal_huff_histogram keep; memcpy(&keep, hg, sizeof keep);
 	int depth_ll = huff_depth(keep.lit_len_histogram, 286), depth_d = huff_depth(keep.dist_histogram, 30);
@@ -195,11 +231,13 @@ static void table_case(long idx, vrng *r)
 	/* ---- usable: compress with it */
 	if (subset) { /* data restricted to literals that had non-zero counts (any data when there are none: then every symbol gets a code?) */
 		int lits[256], nl = 0; for (int i = 0; i < 256; i++) if (keep.lit_len_histogram[i]) lits[nl++] = i;
-		if (nl) { size_t n = 1 + vrn(r, 20000); for (size_t i = 0; i < n; i++) data[i] = (uint8_t) lits[vrn(r, nl)]; if (vrn(r, 2)) for (size_t i = 40; i + 40 < n; i += 97) memcpy(data + i, data + i - 33, 20); if (roundtrip(ht, data, n, r, "subset")) goto out; }
+		if (nl) { size_t n = 1 + vrn(r, 20000); for (size_t i = 0; i < n; i++) data[i] = (uint8_t) lits[vrn(r, nl)]; if (vrn(r, 2)) for (size_t i = 40; i + 40 < n; i += 97) memcpy(data + i, data + i - 33, 20); if (roundtrip(ht, data, n, r, "subset")) goto out;
+			for (int rep = 0; rep < 2; rep++) if (worst_group(ht, r, lits, nl, "subset-worst-group")) goto out; }
 	} else {
 		if (datalen && roundtrip(ht, data, datalen, r, "own-data")) goto out;
 		size_t n = vrn(r, 30000); int kind = vrn(r, 3); if (kind == 0) vr_fill(r, data, n); else for (size_t i = 0; i < n; i++) data[i] = (uint8_t) (kind == 1 ? "etaoin shrdlu\n"[vrn(r, 14)] : (i * 7) >> (i & 3));
 		if (roundtrip(ht, data, n, r, "other-data")) goto out;
+		{ int all[256]; for (int i = 0; i < 256; i++) all[i] = i; for (int rep = 0; rep < 3; rep++) if (worst_group(ht, r, all, 256, "worst-group")) goto out; }
 		if (vrn(r, 2)) install_rules(ht, r);
 		if (vrn(r, 4) == 0) switch_at_flush(ht, r);
 	}
@@ -223,6 +261,7 @@ int main(int argc, char **argv)
 		for (long q = 0; q < per * 16 / nl; q++) { long idx = (long) l * 10000000 + q; if (!v_mine(idx)) continue; vrng r; vr_seed(&r, vopt.seed, 70, idx); table_case(idx, &r); if (v_nviol > v_viol_cap) break; }
 	}
 	v_stat("evaluations", st_tables); v_stat("tables_needing_length_limiting", st_deep); v_stat("subset_tables", st_subset); v_stat("roundtrips", st_roundtrips); v_stat("symbols_decoded", st_symbols); v_stat("set_hufftables_refused", st_set_refused); v_stat("set_hufftables_accepted", st_set_accepted);
-	for (int f = 0; f <= 11; f++) { char e[24]; snprintf(e, sizeof e, f <= 10 ? "family%d" : "collected-from-data", f); v_count("histogram_families", e, st_fam[f]); }
+	for (int f = 0; f <= 12; f++) { char e[24]; snprintf(e, sizeof e, f != 11 ? "family%d" : "collected-from-data", f); v_count("histogram_families", e, st_fam[f]); }
+	v_stat("worst_case_group_workloads", st_worst); v_stat("streams_with_a_literal_length_distance_group_over_56_bits", st_worst_groups57); { char e[24]; snprintf(e, sizeof e, "%ld", st_group_bits_max); v_count("largest_group_bits_by_engine_process", e, 1); }
 	return v_finish();
 }
